@@ -881,6 +881,8 @@ MonStep(m0, e) ==
     [] e.e = "crash" -> CrashStep(m, e)
     [] e.e = "probe" -> ProbeStep(m, e)
     [] e.e = "fault" -> [m EXCEPT !.faulted = TRUE]
+    [] e.e = "hp" -> \* a panic escaped a public operation the harness does not wrap individually (drain, stat, ...)
+                     Viol(m, "C16", "panic", e, [op |-> e.op, args |-> <<>>, res |-> e.res, at_integer_limit |-> m.bigSeen])
     [] OTHER -> m
 
 MonInit == [RunInit(Out0, [run |-> 0, mode |-> "none"]) EXCEPT !.out.cnt.runs = 0]
@@ -888,7 +890,7 @@ MonInit == [RunInit(Out0, [run |-> 0, mode |-> "none"]) EXCEPT !.out.cnt.runs = 
 \* The recorded known findings (kept in step with /verif/known_findings.json): a violation record that
 \* satisfies one of these narrow predicates is a defect of the code that is already on file.
 KnownFinding(v) ==
-  \/ /\ v.p = "C07" /\ v.k \in {"read_error", "entries_mismatch", "read_mismatch", "iter_error", "iter_mismatch",
+  \/ /\ v.p \in {"C07", "C02"} /\ v.k \in {"read_error", "entries_mismatch", "read_mismatch", "iter_error", "iter_mismatch",
                "read_error_after_recovery", "read_after_recovery_and_write"}
      /\ v.d.f5                                                                                   \* F5
   \/ /\ v.p = "C16" /\ v.k = "panic" /\ v.d.at_integer_limit
